@@ -106,6 +106,7 @@ class Search(object):
         self.transitions = 0
         self.max_depth = 0
         self.capped = False
+        self.depth_limited = False
 
     def run(self, on_transition):
         obj, _ = self.build([])
@@ -122,6 +123,7 @@ class Search(object):
                 if k not in seen:
                     if self.depth_bound is not None and len(h2) >= self.depth_bound:
                         self.capped = True
+                        self.depth_limited = True      # complete for all histories up to the bound, not to closure
                         continue
                     if len(seen) >= self.max_states:
                         self.capped = True
